@@ -338,6 +338,7 @@ impl Prop for C16 {
         if stage == 0 {
             let n = n_ops();
             for i in a..b {
+            out.idx = Some(i);
                 let ops = if i < n { vec![i] } else { vec![(i - n) / n, (i - n) % n] };
                 run_history(&ops, &world, &model_asts, "fresh", out);
                 out.count("states", 1);
@@ -348,6 +349,7 @@ impl Prop for C16 {
         if stage == 1 {
             let hs = reg_histories();
             for i in a..b {
+            out.idx = Some(i);
                 run_history(&hs[i as usize], &world, &model_asts, "registration", out);
                 out.count("states", 1);
                 out.sample(hs[i as usize].iter().map(|o| op_text(*o)).collect::<Vec<_>>().join(" ; "));
@@ -355,6 +357,7 @@ impl Prop for C16 {
             return;
         }
         for i in a..b {
+            out.idx = Some(i);
             let ops = history_of(i, tier);
             run_history(&ops, &world, &model_asts, "histories", out);
             if i % 40009 == 7 {
